@@ -297,6 +297,10 @@ func (n *AbsfsNFS) UpdatePolicyOptions(newPolicy PolicyOptions) error {
 	if newPolicy.RateLimitConfig != nil {
 		rc := *newPolicy.RateLimitConfig
 		snapshot.RateLimitConfig = &rc
+	} else if newPolicy.EnableRateLimiting {
+		// rate limiting enabled without a configuration: same default as New
+		rc := DefaultRateLimiterConfig()
+		snapshot.RateLimitConfig = &rc
 	}
 	if newPolicy.TLS != nil {
 		snapshot.TLS = newPolicy.TLS.Clone()
@@ -304,9 +308,9 @@ func (n *AbsfsNFS) UpdatePolicyOptions(newPolicy PolicyOptions) error {
 	n.policy.Store(&snapshot)
 
 	// Update rate limiter while still holding the write lock (H2 fix)
-	if newPolicy.EnableRateLimiting && newPolicy.RateLimitConfig != nil {
-		n.rateLimiter = NewRateLimiter(*newPolicy.RateLimitConfig)
-	} else if !newPolicy.EnableRateLimiting {
+	if snapshot.EnableRateLimiting {
+		n.rateLimiter = NewRateLimiter(*snapshot.RateLimitConfig)
+	} else {
 		n.rateLimiter = nil
 	}
 
